@@ -364,6 +364,61 @@ Section Proofs.
     Lemma young_if_few : Z.of_nat (allocs s) < two31 - 1 -> all_young s.
     Proof. intros H a k c p _ _. unfold age, two31 in *. lia. Qed.
   End Run.
+
+  Lemma srun_snoc ls : forall s l, srun maxi s (ls ++ [l]) = match srun maxi s ls with Some s1 => sstep maxi s1 l | None => None end.
+  Proof.
+    induction ls as [|x ls IH]; intros s l; cbn [app srun].
+    - destruct (sstep maxi s l); reflexivity.
+    - destruct (sstep maxi s x); auto.
+  Qed.
+
+  (* the generator discharges the hypothesis of the table theorems ([good_run]): whenever a thread registers a call, the id
+     is non-zero and — provided no outstanding call has been overtaken by 2^31-2 later allocations — no outstanding call
+     on any adapter of the process holds it *)
+  Theorem sys_registration_good nt na ls s t a ow s' :
+    srun maxi (sinit c0 nt na) ls = Some s -> sstep maxi s (SReg t a ow) = Some s' -> all_young s' ->
+    exists v, nth_error (pcs (gen s)) t = Some (TDone v) /\ mgoodb (ads s) (a, LRegister v ow) = true.
+  Proof.
+    intros Hrun E Y.
+    assert (Hrun' : srun maxi (sinit c0 nt na) (ls ++ [SReg t a ow]) = Some s') by (rewrite srun_snoc, Hrun; exact E).
+    pose proof (run_SI _ _ _ _ Hrun) as I.
+    cbn [sstep] in E.
+    destruct (nth_error (pcs (gen s)) t) as [[| | |v]|] eqn:Et; try discriminate.
+    destruct (nth_error (ads s) a) as [ad|] eqn:Ea; [|discriminate].
+    destruct (nth_error (born s) a) as [b|] eqn:Eb; [|discriminate].
+    destruct (Pending.step ad (LRegister v ow)) as [ad'|] eqn:Es; [|discriminate].
+    inversion E; subst s'; clear E.
+    exists v. split; auto. unfold mgoodb. cbn [snd].
+    destruct (si_thr _ I _ _ Et) as [_ Hv]. apply andb_true_intro. split; [apply negb_true_iff, Z.eqb_neq; exact Hv|].
+    apply forallb_forall. intros ad1 Hin. destruct (In_nth_error _ _ Hin) as [a1 Ea1].
+    unfold id_free. apply forallb_forall. intros c1 Hc1. destruct (In_nth_error _ _ Hc1) as [k1 Ek1].
+    destruct (active c1) eqn:Act; [|reflexivity]. destruct (c_id c1 =? v) eqn:Eid; [|reflexivity]. exfalso.
+    apply Z.eqb_eq in Eid.
+    destruct (si_born _ I _ _ Ea1) as [b1 [Eb1 L1]].
+    assert (Hk1 : (k1 < length b1)%nat) by (rewrite L1; eapply nth_error_lt; eauto).
+    destruct (nth_error b1 k1) as [p1|] eqn:Ep1; [|apply nth_error_None in Ep1; lia].
+    destruct (si_born _ I _ _ Ea) as [b0 [Eb0 L0]]. rewrite Eb in Eb0. inversion Eb0; subst b0.
+    (* the old call is still a call of the new state *)
+    assert (C1 : call_at {| gen := {| ctr := ctr (gen s); pcs := set_nth t TIdle (pcs (gen s)); hist := hist (gen s); ids := ids (gen s) |};
+                            tpos := tpos s; ads := upd a ad' (ads s); born := upd a (b ++ [nth t (tpos s) 0%nat]) (born s) |} a1 k1 c1 p1).
+    { unfold call_at. cbn [ads born]. rewrite !nth_error_upd. destruct (Nat.eqb a a1) eqn:Eq.
+      - apply Nat.eqb_eq in Eq. subst a1. rewrite Ea, Eb. rewrite Ea in Ea1. inversion Ea1; subst ad1.
+        rewrite Eb in Eb1. inversion Eb1; subst b1.
+        exists ad', (b ++ [nth t (tpos s) 0%nat]). repeat split; auto.
+        + rewrite (register_calls _ _ _ _ Es). rewrite nth_error_app1; auto. eapply nth_error_lt; eauto.
+        + rewrite nth_error_app1; auto.
+      - exists ad1, b1. auto. }
+    (* the new call *)
+    assert (C2 : call_at {| gen := {| ctr := ctr (gen s); pcs := set_nth t TIdle (pcs (gen s)); hist := hist (gen s); ids := ids (gen s) |};
+                            tpos := tpos s; ads := upd a ad' (ads s); born := upd a (b ++ [nth t (tpos s) 0%nat]) (born s) |}
+                         a (length (calls ad)) {| c_id := v; c_oneway := ow; c_pc := CReg |} (nth t (tpos s) 0%nat)).
+    { unfold call_at. cbn [ads born]. rewrite !nth_error_upd, Nat.eqb_refl, Ea, Eb.
+      exists ad', (b ++ [nth t (tpos s) 0%nat]). repeat split; auto.
+      + rewrite (register_calls _ _ _ _ Es). rewrite nth_error_app2, Nat.sub_diag; auto.
+      + rewrite nth_error_app2; rewrite L0; auto. rewrite Nat.sub_diag. reflexivity. }
+    destruct (sys_outstanding_distinct _ _ _ _ Hrun' _ _ _ _ _ _ _ _ Y C1 C2 Act eq_refl Eid) as [X1 X2].
+    subst a1. rewrite Ea in Ea1. inversion Ea1; subst ad1. apply nth_error_lt in Ek1. lia.
+  Qed.
 End Proofs.
 
 (* ---------- non-vacuity ---------- *)
